@@ -480,6 +480,13 @@ Section Model.
     | KT => one (Ok (convert_torus s))
     end.
 
+  (* SurfaceCollection.join + convert_mcnp_surface: a dictionary entry (parts
+     with sides) becomes ONE flat collection, the sides multiplied *)
+  Definition join (colls : list (list (t4surf T * Z) * Z)) : list (t4surf T * Z) :=
+    flat_map (fun cs => map (fun ss => (fst ss, (snd ss * snd cs)%Z)) (fst cs)) colls.
+  Definition convert_entry (e : list (msurf T * Z)) : res (list (t4surf T * Z)) :=
+    rmap join (map_res (fun sd => rmap (fun c => (c, snd sd)) (convert (fst sd))) e).
+
   (* a surface of the deck moved by a transformation and converted *)
   Definition tr_convert (tr : list T) (s : msurf T) : res (list (t4surf T * Z)) :=
     bind (transformation tr s) convert.
